@@ -835,12 +835,8 @@ func calculateAndCheckRuleHash(state *core.BuildState, target *core.BuildTarget)
 			log.Warning("%s", err)
 		}
 	}
-	if !target.IsFilegroup {
-		if err := writeRuleHash(state, target); err != nil {
-			return nil, fmt.Errorf("Attempting to record rule hash: %s", err)
-		}
-	}
-	// Set appropriate permissions on outputs
+	// Set appropriate permissions on outputs. This must happen before the rule hash is recorded: once it is, a later
+	// build trusts the outputs as they are, so a crash in between must not leave non-executable binaries behind.
 	if target.IsBinary {
 		for _, output := range target.FullOutputs() {
 			// Walk through the output,
@@ -854,6 +850,11 @@ func calculateAndCheckRuleHash(state *core.BuildState, target *core.BuildTarget)
 			if err != nil {
 				return nil, fmt.Errorf("failed to mark rule output as binary: %w", err)
 			}
+		}
+	}
+	if !target.IsFilegroup {
+		if err := writeRuleHash(state, target); err != nil {
+			return nil, fmt.Errorf("Attempting to record rule hash: %s", err)
 		}
 	}
 	return hash, nil
